@@ -147,7 +147,9 @@ def run_property(P, tier, seed, replay=None):
                 if j in spec_set:
                     continue
                 i = idx[j]
-                model_says = C.coq_eval_expr(P.TIE, terms[j], "%s.model_out c" % P.TIE) if getattr(P, "HAS_MODEL_OUT", True) else ""
+                model_says = ""
+                if getattr(P, "HAS_MODEL_OUT", True) and len(run.violations) < 6:   # diagnostics for the first few only
+                    model_says = C.coq_eval_expr(P.TIE, terms[j], "%s.model_out c" % P.TIE)
                 rp = {"property": P.ID, "kind": "correspondence broken: model and implementation differ; "
                       "the Spec oracle accepts the implementation's answer on every explored input",
                       "broken": "correspondence %s.check_model (the theorems of %s are about a model that no longer matches the code)" % (P.TIE, P.PROPERTY_FILE),
